@@ -261,7 +261,7 @@ type request struct {
 	Outer     bool   // store API in a handler in front of the middleware: Pre, (MW + Ops), Post
 	Pre       []op
 	Post      []op
-	Fault     string // "", "get-first", "get-outage": Storage.Get fails during this request
+	Fault     string // "get-first", "get-outage": Storage.Get fails; "delete-outage": Storage.Delete fails
 	Ops       []op
 }
 
@@ -303,6 +303,8 @@ type judge struct {
 	stop    bool
 	// what happened, for the non-triviality rule and statistics
 	otherName  []string // "name=id" emitted under a differently-cased cookie name
+	delFault   bool     // every Storage.Delete fails during this request
+	unknown    bool     // an operation reported an error under that fault: state unknown, no verdict
 	saveFailed bool     // a Save of this request could not encode the data (unregistered value type)
 	usedDead   string   // cause of death of a dead id that was presented / looked up
 	deadProbe  int
@@ -313,6 +315,13 @@ func (j *judge) fail(v *vio) {
 		return
 	}
 	j.vs = append(j.vs, *v)
+	j.stop = true
+}
+
+// giveUp: under a Delete outage an operation reported an error. What the storage then holds is not
+// defined by the statement (the old id may or may not be gone): the history ends here, no verdict.
+func (j *judge) giveUp() {
+	j.unknown = true
 	j.stop = true
 }
 
@@ -398,6 +407,10 @@ func (j *judge) acquire(o *opObs, first bool, where string) {
 	w := j.w
 	v := o.View
 	if !v.Held {
+		if j.delFault {
+			j.giveUp() // the lookup had to delete (absolute timeout over) and said it could not
+			return
+		}
 		j.fail(&vio{"api|no-session|" + j.via, where + ": no session: " + o.Err})
 		return
 	}
@@ -468,7 +481,9 @@ func (j *judge) acquire(o *opObs, first bool, where string) {
 	if first {
 		if st, why := w.status(j.rq.Presented); w.store[j.rq.Presented] != nil && st != stAlive {
 			// the server considered it expired (either-window or dead): it ends here
-			if why == "abs" {
+			if why == "abs" && j.delFault {
+				// it could not be deleted; past its absolute deadline it stays refused anyway
+			} else if why == "abs" {
 				w.kill(j.rq.Presented, "abs-expired")
 			} else {
 				w.kill(j.rq.Presented, "idle-expired")
@@ -531,12 +546,16 @@ func (j *judge) changeID(o *opObs, what string) bool {
 
 // run judges one request against the specification and advances it.
 func (w *world) judgeRequest(rq *request, ob *reqObs) *judge {
-	j := &judge{w: w, rq: rq, via: "store"}
+	j := &judge{w: w, rq: rq, via: "store", delFault: rq.Fault == "delete-outage"}
 	if rq.Outer {
 		return j
 	}
 	if rq.MW {
 		j.via, j.mw = "mw", true
+	}
+	if ob.Fatal != "" && j.delFault {
+		j.giveUp()
+		return j
 	}
 	if ob.Fatal != "" {
 		j.fail(&vio{"api|handler-could-not-run|" + j.via, ob.Fatal})
@@ -657,6 +676,10 @@ func (j *judge) step(o op, r *opObs, idx int) {
 			j.persist()
 		}
 	case "destroy":
+		if r.Err != "" && j.delFault {
+			j.giveUp()
+			return
+		}
 		if r.Err != "" {
 			j.fail(&vio{"api|destroy-error|" + j.via, where + ": " + r.Err})
 			return
@@ -666,6 +689,10 @@ func (j *judge) step(o op, r *opObs, idx int) {
 		c.destroyed = true
 		j.emit = emission{kind: emExpired}
 	case "regen":
+		if r.Err != "" && j.delFault {
+			j.giveUp()
+			return
+		}
 		if r.Err != "" {
 			j.fail(&vio{"api|regenerate-error|" + j.via, where + ": " + r.Err})
 			return
@@ -678,6 +705,10 @@ func (j *judge) step(o op, r *opObs, idx int) {
 		// Reset, below, starts a new session with a deadline of its own.
 		c.regen = true
 	case "reset":
+		if r.Err != "" && j.delFault {
+			j.giveUp()
+			return
+		}
 		if r.Err != "" {
 			j.fail(&vio{"api|reset-error|" + j.via, where + ": " + r.Err})
 			return
@@ -718,6 +749,10 @@ func (j *judge) step(o op, r *opObs, idx int) {
 			if r.Err == "" {
 				j.fail(&vio{"api|delete-empty-id-accepted", where})
 			}
+			return
+		}
+		if r.Err != "" && j.delFault {
+			j.giveUp()
 			return
 		}
 		if r.Err != "" {
@@ -767,7 +802,9 @@ func (j *judge) byID(o op, r *opObs, where string) {
 			return
 		}
 		if e != nil {
-			if why == "abs" {
+			if why == "abs" && j.delFault {
+				// GetByID answered "not found" as it must; the entry could not be deleted
+			} else if why == "abs" {
 				w.kill(o.Tgt, "abs-expired")
 			} else if st == stDead {
 				w.kill(o.Tgt, "idle-expired")
